@@ -254,7 +254,7 @@ class IncomingMessageHandler(IncomingMessageHandlerBase):
         """Process an internal version message."""
         try:
             gateway.protocol_version = message.payload
-        except AwesomeVersionException as err:
+        except (AwesomeVersionException, ValueError) as err:
             raise InvalidMessageError(err, message) from err
         return message
 
